@@ -329,8 +329,10 @@ void Node_MemPort::simulateAdvance(sim::SimulatorCallbacks &simCallbacks, sim::D
 				// Perform write, same index computation/behavior as for reads
 				auto memSize = getMemory()->getSize();
 				HCL_ASSERT(memSize % getBitWidth() == 0);
-				auto index = (addressValue * getBitWidth()) % memSize;
-				state.copyRange(internalOffsets[(size_t)RefInternal::memory] + index, state, internalOffsets[(size_t)Internal::wrData], getBitWidth());
+				// Same behavior as for reads: addresses beyond the end of the memory do not alias onto other words, the write is dropped.
+				auto index = addressValue * getBitWidth();
+				if (index < memSize)
+					state.copyRange(internalOffsets[(size_t)RefInternal::memory] + index, state, internalOffsets[(size_t)Internal::wrData], getBitWidth());
 			}
 		}
 	}
